@@ -393,7 +393,36 @@ fn gen_ops(r: &mut Rng, nm: &mut Names, ni: u64, ng: u64, ns: u64, len: usize, t
                     ss.push(s2);
                 }
             }
-            Op::Delegate(p, ch, ss, r.range(1, 3), if r.chance(1, 4) { Some(0) } else { None })
+            let lv = r.range(1, 3);
+            let tt = if r.chance(1, 4) { Some(0) } else { None };
+            ops.push(Op::Delegate(p, ch, ss.clone(), lv, tt));
+            for sx in &ss {
+                ops.push(Op::Perm(ch, *sx));
+            }
+            // deepen the chain / close a cycle / delegate to oneself: the calls DelegationManager refuses
+            match r.below(4) {
+                0 => {
+                    ops.push(Op::Delegate(ch, ch, ss.clone(), 1, None));
+                    ops.push(Op::Perm(ch, ss[0]));
+                }
+                1 if p != 0 && parent_of.get(&p).map_or(true, |x| *x == ch) => {
+                    parent_of.entry(p).or_insert(ch);
+                    ops.push(Op::Delegate(ch, p, ss.clone(), 1, None));
+                    ops.push(Op::Perm(p, ss[0]));
+                    ops.push(Op::Get(p, ss[0]));
+                }
+                2 => {
+                    // a grandchild nobody delegated to yet
+                    if let Some(gc) = (1..=ni).find(|x| *x != ch && *x != p && !parent_of.contains_key(x)) {
+                        parent_of.insert(gc, ch);
+                        ops.push(Op::Delegate(ch, gc, ss.clone(), 1, None));
+                        ops.push(Op::Perm(gc, ss[0]));
+                        ops.push(Op::Get(gc, ss[0]));
+                    }
+                }
+                _ => {}
+            }
+            continue;
         } else if k < 80 {
             Op::Perm(r.range(1, ni), s)
         } else if k < 94 {
@@ -729,6 +758,77 @@ fn main() {
             Op::Rotate(1, 0, v1),
         ];
         run_history(915, (2, 3, 10), nm, ops, "corpus repeated grants to a group, one revoke, member access", &mut hist, &mut scan, &mut dist, &mut hits);
+    }
+
+    {
+        // seeded C14-r3-3 shape: delegations that DelegationManager refuses (depth limit 3, cycle, self) must
+        // not change anybody's access: chain root-granted u1 -> u2 -> u3 -> u4, then u4 -> u5 (depth 4)
+        let mut nm = mk_names(&mut rng, 5, 1, 2, 916);
+        let v0 = new_value(&mut rng, &mut nm, 916);
+        let v1 = new_value(&mut rng, &mut nm, 916);
+        let v2 = new_value(&mut rng, &mut nm, 916);
+        let mut ops = vec![
+            Op::Set(0, 0, v0),
+            Op::Set(0, 1, v1),
+            Op::Grant(0, 1, 0, 3, None),
+            Op::Grant(0, 1, 1, 3, None),
+            Op::Delegate(1, 2, vec![0, 1], 2, None),
+            Op::Delegate(2, 3, vec![0], 2, None),
+            Op::Delegate(3, 4, vec![0], 1, None),
+            Op::Delegate(4, 5, vec![0], 1, None), // depth 4 > 3: refused
+            Op::Perm(5, 0),
+            Op::Get(5, 0),
+            Op::ListExact(5, 0),
+            Op::Delegate(2, 2, vec![1], 2, None), // self: refused
+            Op::Perm(2, 1),
+            Op::Revoke(0, 1, 0),                  // u1 loses its own grant on secret 0 ...
+            Op::Perm(1, 0),
+            Op::Delegate(3, 1, vec![0], 2, None), // ... and must not get it back from its descendant (cycle): refused
+            Op::Perm(1, 0),
+            Op::Get(1, 0),
+            Op::Rotate(1, 0, v2),
+            Op::Delegate(4, 5, vec![0], 1, Some(LONG)),
+            Op::Perm(5, 0),
+        ];
+        for e in 1..=5u64 {
+            for sx in 0..2u64 {
+                ops.push(Op::Perm(e, sx));
+            }
+        }
+        run_history(916, (3, 3, 10), nm, ops, "corpus refused delegations (depth limit, self, cycle) change nobody's access", &mut hist, &mut scan, &mut dist, &mut hits);
+    }
+
+    {
+        // seeded C14-r3-2 shape: list / exact list for a member whose only grant lies beyond the horizon, or is
+        // attenuated: the filter behind list must use the vault's own attenuation policy
+        for (pi, pol) in [(1u64, 2u64, 2u64), (0, 1, 2), (1, 1, 1), (1, 2, 3)].iter().enumerate() {
+            let tag = 920 + pi as u64;
+            let mut nm = mk_names(&mut rng, 2, 3, 2, tag);
+            let v0 = new_value(&mut rng, &mut nm, tag);
+            let v1 = new_value(&mut rng, &mut nm, tag);
+            let ops = vec![
+                Op::Set(0, 0, v0),
+                Op::Set(0, 1, v1),
+                Op::Member(1, 3),
+                Op::Member(3, 4),
+                Op::Member(4, 5),
+                Op::Grant(0, 5, 0, 3, None), // 4 hops from u1
+                Op::Grant(0, 4, 1, 3, None), // 3 hops from u1
+                Op::List(1),
+                Op::ListExact(1, 0),
+                Op::ListExact(1, 1),
+                Op::Perm(1, 0),
+                Op::Perm(1, 1),
+                Op::Get(1, 0),
+                Op::Get(1, 1),
+                Op::Grant(0, 3, 0, 1, None), // 2 hops
+                Op::List(1),
+                Op::ListExact(1, 0),
+                Op::List(2),
+                Op::ListExact(2, 0),
+            ];
+            run_history(tag, *pol, nm, ops, "corpus list for a member with grants at and beyond the horizon", &mut hist, &mut scan, &mut dist, &mut hits);
+        }
     }
 
     // ---- random long mixed histories
